@@ -79,7 +79,19 @@ def _gen_from(rnd):
         a = acl_from(rnd, rules, seen_keys=seen) or (acl_from(rnd, rules, skip=0, seen_keys=seen) if i == 0 else [])
         if a:
             acls.append(["G%d" % i, a])
-    return {"vendor": vendor, "rules": rules, "old": RL.plain(old), "new": RL.plain(new), "acls": acls,
+    old, new = RL.plain(old), RL.plain(new)
+    if rnd.chance(12):
+        # sibling blocks whose children rules have the same NAMES but different content: one generator owns '<fam>/rd' under every
+        # 'ovlc *' block, another owns '<fam>/vt' under 'ovlc a' only; both blocks change rd and vt
+        rules = rules + [RL.rule(["ovlc", "*"], [RL.rule(["fam"], [RL.rule(["rd", "*"]), RL.rule(["vt", "*"])])])]
+        RL.assign_ids(rules)
+        first, second = ("a", "b") if rnd.chance(70) else ("b", "a")
+        for k in (first, second):
+            old["ovlc " + k] = {"fam": {"rd 1": {}, "vt 1": {}}}
+            new["ovlc " + k] = {"fam": {"rd 2": {}, "vt 2": {}}}
+        acls = acls + [["GR", [RA.acl_rule(["ovlc", "*"], [RA.acl_rule(["fam"], [RA.acl_rule(["rd", "*"])])])]],
+                       ["GV", [RA.acl_rule(["ovlc", "a"], [RA.acl_rule(["fam"], [RA.acl_rule(["vt", "~"])])])]]]
+    return {"vendor": vendor, "rules": rules, "old": old, "new": new, "acls": acls,
             "acl_indents": [rnd.choice([0, 0, 4, 8]) for _ in acls], "acl_comments": rnd.choice([0, 0, 1, 2, 3]),
             # --filter-acl: a second ACL, applied to the diff after the generators' one (both must allow a change)
             "filter": acl_from(rnd, rules, skip=25, seen_keys=None) if rnd.chance(30) else None}
@@ -174,13 +186,27 @@ def check(case):
     except SimError as e:
         raise Violation("exec-error", str(e), det)
     det["device_after"] = RL.plain(got)
-    for which, path, cov, nd in [("the combined ACL",) + x for x in _walk(old, actx)] + \
-            ([("the filter ACL",) + x for x in _walk(old, fctx)] if fctx is not None else []):
+    for which, top_actx, path, cov, nd in [("the combined ACL", actx) + x for x in _walk(old, actx)] + \
+            ([("the filter ACL", fctx) + x for x in _walk(old, fctx)] if fctx is not None else []):
         anc_ok = all(_get(got, path[:i]) is not None for i in range(1, len(path)))
         if not cov:
             if len(path) >= 2:
                 labels.append("uncovered-nested")
             now = _get(got, path)
+            if anc_ok and now is None:
+                # the line's text is gone: not a violation if a COVERED command set the same (rule, key) to another value - the old
+                # value (say a bare 'beta1') was not covered, the new one ('beta1 a') is, and on the device they are one setting
+                c = ctx
+                for b in path[:-1]:
+                    c = c.child(c.classify(b)[0], b)
+                ident = c.ident(path[-1])
+                par = _get(got, path[:-1])
+                a_par = top_actx
+                for b in path[:-1]:
+                    a_par = a_par.child(b)
+                if ident is not None and par is not None and any(c.ident(r) == ident and a_par.covered(r) for r in par):
+                    labels.append("uncovered-value-replaced-by-covered-one")
+                    continue
             if anc_ok and (now is None or RL.plain(now) != RL.plain(_get(old, path))):
                 raise Violation("foreign-row-changed", f"row {path!r} is covered by no rule of {which} but was changed/removed by the patch", det)
         elif nd:
